@@ -744,6 +744,21 @@ func directed(newHist func(label string) *hist, finish func(*hist), vr variant) 
 			}
 		}
 	}
+	for _, mode := range []uint64{34, 50, 51, 67} { // shares that are not a whole number of three custodians
+		h := newHist(fmt.Sprintf("votes3/mode%d", mode))
+		h.guard(V, mode, false, false, false, []int{2, 3, 4}, nil, -1)
+		x := h.send(V, 5, 1000, 1, false, []int64{600}).Hash
+		h.approve(2, V, x)
+		h.approve(3, V, x)
+		h.approve(4, V, x)
+		finish(h)
+		h = newHist(fmt.Sprintf("votes1/mode%d/password", mode))
+		h.guard(V, mode, true, false, false, []int{2}, nil, -1)
+		x = h.send(V, 5, 1000, 1, true, []int64{600}).Hash
+		h.confirm(V, V, x, pword(1))
+		h.approve(2, V, x)
+		finish(h)
+	}
 	for sc := 0; sc < 4; sc++ { // the limit path of the decorator (live only on the repaired variant)
 		h := newHist(fmt.Sprintf("limits/%d", sc))
 		switch sc {
@@ -873,8 +888,14 @@ func random(h *hist) {
 		}
 		h.guard(owner, mode, usePw, useWl, useLim, cs, white, cap)
 	}
-	if g.Chance(15) { // accounts with limits but no custodians: the limit path of the decorator
+	limAcct := -1
+	if g.Chance(20) { // an account with limits but no custodians: the limit path of the decorator
+		limAcct = other
 		h.guard(other, 50, false, g.Chance(30), true, []int{}, []int{5, owner}, []int64{100, 1000, 100000}[g.Intn(3)])
+		if g.Chance(40) {
+			h.keyed(op{Kind: "disable_custody", Signer: other}, "", true, "")
+			h.keyed(op{Kind: "add_limits", Signer: other, Denom: "uusd", Cap: []int64{50, 3000}[g.Intn(2)], Limit: []string{"90s", "1h", "0s", "bad"}[g.Intn(4)]}, "", true, "")
+		}
 	}
 	if g.Chance(25) { // the other owner has a custody of its own, possibly naming the first owner as next controller
 		next := ""
@@ -951,6 +972,9 @@ func random(h *hist) {
 			s := owner
 			if g.Chance(15) {
 				s = g.Intn(N)
+			}
+			if limAcct >= 0 && g.Chance(60) {
+				s = limAcct
 			}
 			h.bankc("bank_send", s, []int{5, other, 4, 2}[g.Intn(4)], rndCoins(g, []int64{1, 50, 500, 2000, 150000}[g.Intn(5)]))
 		case x < 77:
